@@ -1,4 +1,5 @@
 import Traph.Helpers
+import Traph.Storage
 /-! Semantics of the Python primitives that `gen/gen_helpers.py` emits when it translates `traph/helpers.py`.
     Hand-written and trusted (like the rest of "CPython `bytes`/`list` semantics"); the byte-string primitives are the
     ones of `Traph/Helpers.lean`, so the generated code and the hand-written model share one reading of `bytes`.
@@ -78,5 +79,37 @@ def unpack2 {α} (l : List α) : M (α × α) :=
   match l with
   | [a, b] => .ok (a, b)
   | _ => .error (.exc "ValueError")
+
+/-- `a % b` -/
+def mod (a b : Nat) : M Nat := if b = 0 then .error (.exc "ZeroDivisionError") else .ok (a % b)
+
+/-- a Python file object opened in binary read/write mode: the file's bytes and the cursor (an OS file as a byte array,
+    as everywhere in this development; writing past the end zero-fills the gap, `overwriteAt`) -/
+structure File where
+  data : Bytes := []
+  pos  : Nat := 0
+deriving Repr, DecidableEq, Inhabited
+
+namespace File
+/-- `f.seek(n)` -/
+def seek (f : File) (n : Nat) : File := { f with pos := n }
+/-- `f.seek(0, os.SEEK_END)` -/
+def seekEnd (f : File) : File := { f with pos := f.data.length }
+/-- `f.tell()` -/
+def tell (f : File) : Nat := f.pos
+/-- `f.read(n)` -/
+def read (f : File) (n : Nat) : File × Bytes :=
+  let d := (f.data.drop f.pos).take n
+  ({ f with pos := f.pos + d.length }, d)
+/-- `f.write(data)` -/
+def write (f : File) (data : Bytes) : File :=
+  { data := overwriteAt f.data f.pos data, pos := f.pos + data.length }
+end File
+
+/-- `a[i:j] = data` on a bytearray (slice bounds are clamped to the length) -/
+def sliceAssign (a : Bytes) (i j : Nat) (data : Bytes) : Bytes := a.take i ++ data ++ a.drop (max i j)
+
+/-- `x or None` -/
+def orNone (b : Bytes) : Option Bytes := if b.isEmpty then none else some b
 
 end Traph.Py
